@@ -12,7 +12,8 @@ Tie between Walker.v and internal/dag + internal/worker:
   observation is explained by internal events applied through the extracted `step`, and the two states are
   compared in both directions after every step.
 * model-free oracles evaluated on the same traces (deps first, at most once, <= W, termination, accounting,
-  containment, nothing starts after a cancellation, nothing written after Walk returned).
+  containment, nothing starts after a cancellation, the map Walk returned is never written after the return
+  and is complete when the walk was not cut short).
 * ungated: zero-latency walks of walker+pool on all cores with the same model-free oracles in the harness;
   hangs by timeout, runtime aborts by exit status / stderr."""
 import json, os, subprocess, time
@@ -254,7 +255,10 @@ def driver_lines(s, tr):
                 lines.append("ev\tUnknownOutcome 0"); meta.append(("ev", k))
             else:
                 lines.append("ev\t%s %s" % (ev, act[1])); meta.append(("ev", k))
-        lines.append("obs\t%s\t%s\t%s\t%s\t%s\t%s\t%s" % (o["S"], o["Enq"], o["B1"], o["B2"], o["Ok"], o["Fail"], o["ret"]))
+        line = "obs\t%s\t%s\t%s\t%s\t%s\t%s\t%s" % (o["S"], o["Enq"], o["B1"], o["B2"], o["Ok"], o["Fail"], o["ret"])
+        if "ROk" in o:   # the map Walk returned, as it is at this quiescent point (model: snap)
+            line += "\t%s\t%s" % (o["ROk"], o["RFail"])
+        lines.append(line)
         meta.append(("obs", k))
     return lines, meta
 
@@ -272,7 +276,7 @@ def validate(drv, scheds, traces):
     rc, out, err = vlib.run_lines(drv, all_lines)
     if rc != 0 or len(out) != len(all_lines):
         raise RuntimeError("walker model driver failed: rc=%s %d/%d %s" % (rc, len(out), len(all_lines), err[-400:]))
-    res, stats = {}, {"model_events": 0, "race_states": 0, "final_classes": set()}
+    res, stats = {}, {"model_events": 0, "late_states": 0, "final_classes": set()}
     for sid, off, meta in spans:
         res[sid] = None
         last = ""
@@ -293,8 +297,8 @@ def validate(drv, scheds, traces):
                 res[sid] = {"step": k, "why": o.split(" | ")[0], "model": o.split(" | ")[-1]}
                 break
         if res[sid] is None and last:
-            if " race=1" in last:
-                stats["race_states"] += 1
+            if " late=1" in last:   # the walker's own map went on after the snapshot handed to the caller
+                stats["late_states"] += 1
             f = dict(kv.split("=") for kv in last.split(" ")[1:] if "=" in kv)
             stats["final_classes"].add((bool(f.get("F")), bool(f.get("S")), bool(f.get("A")), bool(f.get("Q")), f.get("fft"), f.get("ctx")))
     return res, stats
@@ -312,7 +316,9 @@ def oracles(s, tr):
     first_fail_at = None
     ret_at = None
     prev_done = None
-    late_write = None
+    prev_returned = None
+    late_write = None    # step at which the map Walk RETURNED is seen to have changed after the return
+    tr["late_own"] = None  # step at which the walker's OWN map records a completion after the return (legitimate: Walk does not wait)
     ret_early = False   # Walk returned through ctx.Done: after a cancellation, or fail-fast with a failure recorded
     for k, (act, o) in enumerate(tr["steps"]):
         S, B1, B2, OK, FL = iset(o["S"]), iset(o["B1"]), iset(o["B2"]), iset(o["Ok"]), iset(o["Fail"])
@@ -339,11 +345,18 @@ def oracles(s, tr):
         if o["ret"] == "1" and ret_at is None:
             ret_at = k
             ret_early = cancelled_at is not None or bool(s["ff"] and FL)
+            if s["ff"] and FL and o["err"] == "0" and "RFail" in o and not iset(o["RFail"]):
+                bad.append(("C04", "step %d: Walk returned through fail-fast (failed: %s) but the map it returned holds no failure" % (k, sorted(FL))))
         if act[0] == "cancel" and o["ret"] != "1":
             bad.append(("C18", "step %d: Walk has not returned at quiescence after the context was cancelled" % k))
-        if prev_done is not None and ret_at is not None and ret_at < k and (OK | FL) != prev_done and late_write is None:
-            late_write = k
+        if prev_done is not None and ret_at is not None and ret_at < k and (OK | FL) != prev_done and tr["late_own"] is None:
+            tr["late_own"] = k
         prev_done = OK | FL
+        if "ROk" in o:
+            returned = (iset(o["ROk"]), iset(o["RFail"]))
+            if prev_returned is not None and ret_at is not None and ret_at < k and returned != prev_returned and late_write is None:
+                late_write = k
+            prev_returned = returned
     end = tr.get("end")
     if tr.get("panic"):
         bad.append(("C04", "synctest bubble panicked: %s" % tr["panic"][:200]))
@@ -375,7 +388,17 @@ def oracles(s, tr):
                     bad.append(("C05", "node %d failed but is recorded as successful" % x))
         if not early and o["err"] == "1":
             bad.append(("C04", "Walk returned an error without cancellation"))
+        if not early and "ROk" in o and (iset(o["ROk"]), iset(o["RFail"])) != (OK, FL):
+            bad.append(("C04", "the map Walk returned (ok %s, failed %s) is not the final completions (ok %s, failed %s) although the walk was not cut short" % (
+                o["ROk"], o["RFail"], sorted(OK), sorted(FL))))
     return bad, late_write, ret_early
+
+
+def _real_exceeds_model(reason):
+    """'returned-map-x: real={1,4} model={1}' -> real is a strict superset of model"""
+    import re
+    m = re.match(r"returned-map-\w+: real=\{([0-9,]*)\} model=\{([0-9,]*)\}", reason)
+    return bool(m) and iset(m.group(1)) > iset(m.group(2))
 
 
 # ------------------------------------------------------------------ one gated campaign
@@ -399,6 +422,7 @@ def gated_campaign(out, pid, tier, focus, scheds=None, race=False):
             {"schedule": s, "output": crash["output"], "replay_cmd": "./check %s --replay <this file>" % pid})
     res, stats = validate(drv, scheds, traces)
     breaks, oracle_hits, late = [], [], []
+    late_breaks = 0
     steps = 0
     nontrivial = set()
     dist = {"with_failure": 0, "with_cancel": 0, "fail_fast": 0, "max_nodes": 0, "saturated_pool": 0}
@@ -412,7 +436,19 @@ def gated_campaign(out, pid, tier, focus, scheds=None, race=False):
         if mine:
             oracle_hits.append((s, tr, mine))
         if res.get(s["id"]):
-            breaks.append((s, tr, res[s["id"]], bad))
+            b = res[s["id"]]
+            reasons = b["why"][6:].split("; ") if b["why"].startswith("BREAK ") else [b["why"]]
+            if all(x.startswith("returned-map-") for x in reasons) and (late_write is not None or (ret_early and all(map(_real_exceeds_model, reasons)))):
+                # the model's snapshot stays, the real returned map moved: the observation of the late-write oracle
+                # (reported once, by C04, as C04-F1 or as a violation), not a second finding.  The oracle compares
+                # consecutive quiescent points; a completion that reaches the returned map in the very burst of an early
+                # return (a callback rejected by the pool that Walk's caller closes) is only visible against the model's
+                # snapshot: the returned map then holds MORE than was recorded when Walk returned
+                late_breaks += 1
+                if late_write is None:
+                    late_write = b["step"]
+            else:
+                breaks.append((s, tr, b, bad))
         if late_write is not None:
             late.append((s, tr, late_write, ret_early))
         acts = [a[0] for a, _ in tr["steps"]]
@@ -438,8 +474,9 @@ def gated_campaign(out, pid, tier, focus, scheds=None, race=False):
              "schedule": s, "trace": [[a, o] for a, o in tr["steps"][:b["step"] + 1]], "model_state": b["model"], "break": b["why"],
              "replay_cmd": "./check %s --replay <this file>" % pid}, no_input=True)
     info.update({"traces": len(traces), "steps": steps, "model_events_replayed": stats["model_events"],
-                 "correspondence_breaks": len(breaks), "oracle_failures": len(oracle_hits),
-                 "runs_with_completion_after_walk_returned": len(late), "model_race_states": stats["race_states"],
+                 "correspondence_breaks": len(breaks), "returned_map_breaks_on_late_write_runs": late_breaks, "oracle_failures": len(oracle_hits),
+                 "runs_with_completion_after_walk_returned": sum(1 for t in traces.values() if t.get("late_own") is not None),
+                 "runs_with_returned_map_written_after_return": len(late), "model_late_states": stats["late_states"],
                  "distinct_final_classes": len(stats["final_classes"]), "distribution": dist,
                  "distinct_nontrivial": len(nontrivial)})
     return info, scheds, {"traces": traces, "late": late, "breaks": breaks, "oracle_hits": oracle_hits}
@@ -528,10 +565,6 @@ def stress_campaign(out, pid, tier, focus, race=False):
         if timed_out or rc != 0:
             done = len(lines)
             sp = chunk[done] if done < len(chunk) else None
-            known_race = "DATA RACE" in se and "onComplete" in se and sp is not None and (sp["ff"] or sp["cancel"])
-            if known_race and race:
-                out.notes.append("race detector: completions map read by the harness while onComplete writes it (spec %s)" % sp["id"])
-                continue
             what = "did not return within %d s (hang)" % tmo if timed_out else "aborted with exit status %s: %s" % (
                 rc, " ".join(x for x in se.split("\n") if "fatal error" in x or "panic:" in x or "DATA RACE" in x)[:200])
             out.violation("ungated walker+pool run %s on spec %s" % (what, sp["id"] if sp else "?"),
@@ -566,14 +599,16 @@ def explore_tiny(out, drv=None):
                 lines.append("explore\t%d\t%d\t%s\t400000" % (w, ff, deps_str(g)))
                 meta.append((name, w, ff))
     rc, res, err = vlib.run_lines(drv, lines)
-    tot = {"states": 0, "terminal": 0, "deadlocks": 0, "depsfirst_viol": 0, "bound_viol": 0, "mu_viol": 0, "capped": 0}
+    tot = {"states": 0, "terminal": 0, "deadlocks": 0, "depsfirst_viol": 0, "bound_viol": 0, "mu_viol": 0, "snap_viol": 0,
+           "late_states": 0, "capped": 0}
     for m, l in zip(meta, res):
         kv = dict(x.split("=") for x in l.split(" ")[1:] if "=" in x and x.split("=")[0] in tot)
         for k in tot:
             tot[k] += int(kv.get(k, 0))
-        if int(kv.get("deadlocks", 0)) or int(kv.get("depsfirst_viol", 0)) or int(kv.get("bound_viol", 0)) or int(kv.get("mu_viol", 0)):
+        if int(kv.get("deadlocks", 0)) or int(kv.get("depsfirst_viol", 0)) or int(kv.get("bound_viol", 0)) or int(kv.get("mu_viol", 0)) \
+                or int(kv.get("snap_viol", 0)):
             out.violation("exhaustive exploration of the extracted model on %s (W=%d, fail_fast=%d) contradicts a theorem: %s" % (m[0], m[1], m[2], l[:300]),
-                          {"theorem": "C04_no_deadlock / C03_deps_first / C03_worker_bound / C04_measure", "explore": l, "graph": TINY[m[0]]}, no_input=True)
+                          {"theorem": "C04_no_deadlock / C03_deps_first / C03_worker_bound / C04_measure / C04_no_race / C04_snapshot_sound", "explore": l, "graph": TINY[m[0]]}, no_input=True)
     return tot
 
 
@@ -591,8 +626,19 @@ def replay(out, pid, path):
             bad, late, _ = oracles(s, tr)
             for b in bad:
                 print("ORACLE", b)
+            if tr.get("late_own") is not None:
+                print("completion recorded in the walker's own map after Walk returned at step", tr["late_own"])
+            if late is None and extra.get("late"):
+                late = extra["late"][0][2]   # visible against the model's snapshot only (same burst as the return)
             if late is not None:
-                print("completion written after Walk returned at step", late)
+                print("the map Walk returned was written after the return: seen at step", late)
+                if pid == "C04":
+                    f = {x["class"]: x for x in vlib.known_findings("C04")}.get("completions-written-after-return")
+                    text = "replay of schedule %s: the map Walk returned is written at step %d, after the return" % (s["id"], late)
+                    if f:
+                        out.known(f["id"], text)
+                    else:
+                        out.violation(text + ": the caller reads it without a lock", rp)
         print(json.dumps(info, default=str))
     elif "spec" in rp and rp["spec"]:
         h = vlib.build_harness("walker", deps=())
